@@ -414,51 +414,75 @@ func classifyDiff(d []string) string {
 // schedules; the directory every execution leaves behind is fed to a follow-up normal run.
 func c04CancelUnits(tier string) []*Unit {
 	var us []*Unit
-	for _, method := range []string{"checksum", "timestamp"} {
-		method := method
-		pg := &Prog{Tasks: []*T{
-			{Name: "root", Deps: []Ref{D("fp"), D("failer")}},
-			{Name: "fp", Method: method, Sources: []string{"src.txt"}, Cmds: []C{P(), P()}},
-			{Name: "failer", Cmds: []C{P(), F()}},
-		}}
-		sc := scen("cancelled-by-sibling/"+method, pg, vlab.Options{}, "root")
-		sc.Files["src.txt"] = "1\n"
-		sc.UsesFS = true
-		follow := &vlab.Scenario{Name: "followup", Files: sc.Files, Calls: []vlab.CallSpec{{Task: "fp", Vars: [][2]string{{"VP", "@2"}}}}}
-		sc.AfterRun = func(dir string, x *vlab.Exec) {
-			y := runFree(follow, dir)
-			ran := false
-			for _, e := range y.Trace {
-				if strings.Contains(e.Line, "|fp|") {
-					ran = true
+	type fam struct {
+		name   string
+		pg     func(method string) *Prog
+		fpInst vlab.Inst
+		tag    string
+		what   string
+	}
+	fams := []fam{
+		{"cancelled-by-sibling", func(method string) *Prog {
+			return &Prog{Tasks: []*T{
+				{Name: "root", Deps: []Ref{D("fp"), D("failer")}},
+				{Name: "fp", Method: method, Sources: []string{"src.txt"}, Cmds: []C{P(), P()}},
+				{Name: "failer", Cmds: []C{P(), F()}},
+			}}
+		}, vlab.Inst{Task: "fp", VP: "@>root.d0"}, "cancelled", "fp was cancelled by its failing sibling"},
+		// fp's last command calls a run-once task whose single execution (started earlier by a
+		// task that ignores errors) failed: fp fails with it and records nothing
+		{"last-command-calls-failed-shared-task", func(method string) *Prog {
+			return &Prog{Tasks: []*T{
+				{Name: "root", Cmds: []C{Call("ig"), Call("fp")}},
+				{Name: "ig", IgnoreError: true, Cmds: []C{CallS("shared", "=")}},
+				{Name: "shared", Run: "once", Cmds: []C{P(), F()}},
+				{Name: "fp", Method: method, Sources: []string{"src.txt"}, Cmds: []C{P(), CallS("shared", "=")}},
+			}}
+		}, vlab.Inst{Task: "fp", VP: "@>root.c1"}, "failed_in_called_shared_task", "fp failed in its call of a shared task whose only execution had failed"},
+	}
+	for _, f := range fams {
+		for _, method := range []string{"checksum", "timestamp"} {
+			method, f := method, f
+			pg := f.pg(method)
+			sc := scen(f.name+"/"+method, pg, vlab.Options{}, "root")
+			sc.Files["src.txt"] = "1\n"
+			sc.UsesFS = true
+			follow := &vlab.Scenario{Name: "followup", Files: sc.Files, Calls: []vlab.CallSpec{{Task: "fp", Vars: [][2]string{{"VP", "@2"}}}}}
+			sc.AfterRun = func(dir string, x *vlab.Exec) {
+				y := runFree(follow, dir)
+				ran := false
+				for _, e := range y.Trace {
+					if strings.Contains(e.Line, "|fp|") {
+						ran = true
+					}
 				}
+				x.Aux["followup_ran"] = fmt.Sprint(ran)
+				x.Aux["followup_err"] = y.ErrStr
 			}
-			x.Aux["followup_ran"] = fmt.Sprint(ran)
-			x.Aux["followup_err"] = y.ErrStr
-		}
-		check := func(x *vlab.Exec) []vlab.Violation {
-			out := generic("C04", x)
-			ev := vlab.ParseTrace(x.Trace)
-			ti := vlab.IndexTrace(ev)
-			st := pg.Completed(ti, vlab.Inst{Task: "fp", VP: "@>root.d0"}, len(ev)+1, 0)
-			if st != vlab.StOK && x.Aux["followup_ran"] == "false" && x.Aux["followup_err"] == "" {
-				stage := "not_started"
-				if ti.First('S', "fp", "0", "@>root.d0") >= 0 {
-					stage = "cancelled_between_commands"
+			check := func(x *vlab.Exec) []vlab.Violation {
+				out := generic("C04", x)
+				ev := vlab.ParseTrace(x.Trace)
+				ti := vlab.IndexTrace(ev)
+				st := pg.Completed(ti, f.fpInst, len(ev)+1, 0)
+				if st != vlab.StOK && x.Aux["followup_ran"] == "false" && x.Aux["followup_err"] == "" {
+					stage := "not_started"
+					if ti.First('S', "fp", "0", f.fpInst.VP) >= 0 {
+						stage = "stopped_between_commands"
+					}
+					if ti.First('S', "fp", "1", f.fpInst.VP) >= 0 {
+						stage = "stopped_in_last_command"
+					}
+					out = append(out, vlab.V("C04", "skipped_without_successful_attempt", method+":last_attempt="+f.tag,
+						fmt.Sprintf("%s (%s) and did not complete, yet the next normal run of fp reported up to date and ran nothing", f.what, stage)))
 				}
-				if ti.First('S', "fp", "1", "@>root.d0") >= 0 {
-					stage = "cancelled_in_last_command"
-				}
-				out = append(out, vlab.V("C04", "skipped_without_successful_attempt", method+":last_attempt=cancelled",
-					fmt.Sprintf("fp was cancelled by its failing sibling (%s) and did not complete, yet the next normal run of fp reported up to date and ran nothing", stage)))
+				return out
 			}
-			return out
+			bound := 2
+			if tier == "thorough" {
+				bound = 3
+			}
+			us = append(us, &Unit{Name: sc.Name, Sc: sc, Bound: bound, Prune: false, Check: check, Weight: 6})
 		}
-		bound := 2
-		if tier == "thorough" {
-			bound = 3
-		}
-		us = append(us, &Unit{Name: sc.Name, Sc: sc, Bound: bound, Prune: false, Check: check, Weight: 6})
 	}
 	return us
 }
